@@ -78,6 +78,7 @@ var (
 //verif:model (*github.com/cockroachdb/pebble.Iterator).Value = vmIterValue
 //verif:model (*github.com/cockroachdb/pebble.Iterator).Close = vmIterClose
 //verif:stub noop (*github.com/cockroachdb/pebble.DB).Compact (*github.com/cockroachdb/pebble.DB).Close
+//verif:stub havoc github.com/ethereum/go-ethereum/metrics.Enabled github.com/ethereum/go-ethereum/metrics.GetOrRegisterGaugeFloat64 github.com/ethereum/go-ethereum/metrics.GetOrRegisterGauge github.com/ethereum/go-ethereum/metrics.GetOrRegisterCounter github.com/ethereum/go-ethereum/metrics.GetOrRegisterMeter github.com/ethereum/go-ethereum/metrics.NewRegisteredGaugeFloat64 github.com/ethereum/go-ethereum/metrics.NewRegisteredGauge github.com/ethereum/go-ethereum/metrics.NewRegisteredCounter github.com/ethereum/go-ethereum/metrics.NewRegisteredMeter
 //verif:go drop
 func vgKV() {}
 
@@ -297,6 +298,16 @@ func vhStorage(s *vhState, nodeID [32]byte, capBytes uint64, radius *uint256.Int
 }
 
 // vhBE: a uint256 as 32 big-endian bytes.
+// vhMaxDist: 2^256-1 as a fresh value (never the shared storage.MaxDistance variable, which code
+// under test could have modified through an aliased pointer).
+func vhMaxDist() *uint256.Int { return uint256.NewInt(0).SetAllOne() }
+
+// vhSharedMaxIntact: the package-level storage.MaxDistance is shared by every store of the process
+// and handed out as the initial radius; no operation may change it.
+func vhSharedMaxIntact() {
+	vsAssert(storage.MaxDistance.Eq(vhMaxDist()), "shared-maximum-distance-constant-unchanged")
+}
+
 func vhBE(x *uint256.Int) []byte { b := x.Bytes32(); return b[:] }
 
 // vhByteSymmetric: the 32 bytes read the same forwards and backwards, i.e. their big-endian and
@@ -312,3 +323,57 @@ func vhByteSymmetric(b []byte) bool {
 }
 
 const vhCap = 1_000_000 // 1 MB: the capacity the repository's own tests use; 5% = 50_000
+
+// vhPebblePruneStep: one pruning put from an arbitrary store state; readability of what is retained
+// (C04) and, when radiusClauses is set, the radius clauses of C06.
+func vhPebblePruneStep(radiusClauses bool) {
+	n := 1 + vsChoose("items", vsParam("N"))
+	s := vhMakeState(n, vhCap)
+	node := vsArr32("node")
+	cs := vhStorage(s, node, vhCap, uint256.NewInt(0).SetAllOne())
+	vsAssume(s.record >= s.kv.held() && s.record <= vhCap)
+	id := vsBytesN("id", 32)
+	vsAssume(!bytes.Equal(id, node[:]))
+	ln := uint64(vsU32("len") & 0x1fffff) // lengths are below 2^21 (assumed below); narrow terms help the solver
+	vsAssume(ln <= vhCap)
+	err := cs.Put(nil, id, vsBytesN("content", int(ln)))
+	if err != nil {
+		return
+	}
+	vhSharedMaxIntact()
+	// every item the store still holds stays readable, byte for byte, whatever the radius became
+	for _, e := range s.kv.live {
+		if bytes.Equal(e.key, vhZeroKey) {
+			continue
+		}
+		got, gerr := cs.Get(nil, xor(e.key, node[:]))
+		vsAssert(gerr == nil, "retained-item-stays-readable")
+		vsAssertBytesEq(got, e.val, "retained-item-reads-back-unchanged")
+	}
+	if !radiusClauses {
+		vsCover("put-done")
+		return
+	}
+	r := cs.Radius()
+	vsAssert(!r.Gt(vhMaxDist()), "radius-never-above-maximum")
+	if r.Eq(vhMaxDist()) {
+		vsCover("radius-unchanged")
+		return
+	}
+	vsCover("radius-shrunk")
+	rb := vhBE(r)
+	symmetric := vhByteSymmetric(rb)
+	for _, e := range s.kv.live {
+		if bytes.Equal(e.key, vhZeroKey) {
+			continue
+		}
+		if symmetric {
+			// the radius was read off a key that is the same in both byte orders: outside KF-C06-2
+			vsAssert(bytes.Compare(e.key, rb) <= 0, "byte-symmetric-radius/retained-item-within-new-radius")
+			vsCover("byte-symmetric-radius")
+		} else {
+			// Region of known finding KF-C06-2 (little-endian decoding of the key bytes).
+			vsAssert(bytes.Compare(e.key, rb) <= 0, "retained-item-within-new-radius")
+		}
+	}
+}
